@@ -330,9 +330,20 @@ class StmtMixin:
                 lo = self.eval(t.slice.lower) if t.slice.lower is not None else None
                 hi = self.eval(t.slice.upper) if t.slice.upper is not None else None
                 # TagList defines no __setitem__: UserList.__setitem__ -> self.data[i] = item
-                run.effect("store_slice", base, (lo, hi), v, node)
-                return
-            key = self.eval(t.slice)
+                one = None
+                width1 = (isinstance(lo, SInt) and isinstance(hi, SInt) and lo.base == hi.base and hi.off - lo.off == 1) or \
+                    (isinstance(lo, int) and isinstance(hi, int) and not isinstance(lo, bool) and lo >= 0 and hi - lo == 1)
+                if width1 and t.slice.step is None:
+                    its = v.items if isinstance(v, SList) and v.mode == "concrete" else list(v) if isinstance(v, (list, tuple)) else None
+                    if its is not None and len(its) == 1 and not isinstance(its[0], SSplat):
+                        one = its[0]
+                if one is None:
+                    run.effect("store_slice", base, (lo, hi), v, node)
+                    return
+                # x[i:i+1] = [item] on a list is x[i] = item
+                key, v = lo, one
+            else:
+                key = self.eval(t.slice)
             if isinstance(key, SStr) and key.is_const():
                 key = key.const()
             ci = self.class_of(base) if isinstance(base, (SObj, SNew)) else None
@@ -414,6 +425,16 @@ class StmtMixin:
         if isinstance(it, SGen):
             self.generator_loop(st, it)
             return
+        parts = it.__dict__.get("chain_parts") if isinstance(it, SOpaque) else None
+        if parts is not None and not st.orelse and not _contains(st.body, (ast.Break,), stop_at_loops=True):
+            # for x in chain(a, b, ..): the loop over a, then over b, ... (no break: each part runs to its end)
+            for part in parts:
+                self._for_over(st, part)
+            return
+        self._for_over(st, it)
+
+    def _for_over(self, st: ast.For, it: Any) -> None:
+        from .interp import _Break, _Continue
         items = self.concrete_items(it)
         if items is not None and not self.is_stop_loop(st):
             broke = False
